@@ -293,6 +293,7 @@ def _run(task, I, res, seed, tier):
                                         {k: native_value(model, I, path, x) for k, x in kw.items()}))
                     wit["__earlier_calls__"] = [f"{fn.__wrapped__.__qualname__}({', '.join(_describe(x) for x in a)})"
                                                 for fn, a, kw in prelude]
+                    wit["__prelude__"] = serialize_prelude(prelude)
                 detail = _replay(task, wit, prelude)
                 if detail.startswith("NOT-CONFIRMED"):
                     # candidate models are not witnesses when a spec function (Num) is uninterpreted in the query:
@@ -313,6 +314,7 @@ def _run(task, I, res, seed, tier):
                                 wit2["__earlier_calls__"] = [
                                     f"{fn.__wrapped__.__qualname__}({', '.join(_describe(x) for x in a)})"
                                     for fn, a, kw in prelude2]
+                                wit2["__prelude__"] = serialize_prelude(prelude2)
                             d2 = _replay(task, wit2, prelude2)
                             if d2.startswith("CONFIRMED"):
                                 wit, detail = wit2, d2 + " (witness search with Num expanded)"
@@ -548,6 +550,54 @@ def native_value(model, I, path, v):
                     pass
         return obj
     return decode(model, v)
+
+
+def serialize_prelude(prelude):
+    out = []
+    for fn, a, kw in prelude:
+        w = getattr(fn, "__wrapped__", fn)
+        out.append(dict(fn=f"{w.__module__}:{w.__qualname__}", args=[_ser(x) for x in a],
+                        kwargs={k: _ser(v) for k, v in kw.items()}))
+    return out
+
+
+def _ser(x):
+    d = getattr(x, "__dict__", None)
+    if isinstance(x, str) and type(x) is not str:
+        return dict(cls=f"{type(x).__module__}:{type(x).__qualname__}", text=str(x),
+                    fields={k: _ser(v) for k, v in (d or {}).items()})
+    return x
+
+
+def _deser(x):
+    if isinstance(x, dict) and "cls" in x and "text" in x:
+        import importlib
+        mod, qn = x["cls"].split(":")
+        cls = importlib.import_module(mod)
+        for part in qn.split("."):
+            cls = getattr(cls, part)
+        obj = str.__new__(cls, x["text"])
+        for k, v in x.get("fields", {}).items():
+            object.__setattr__(obj, k, _deser(v))
+        return obj
+    return x
+
+
+def run_prelude(serialized):
+    """re-run the earlier calls recorded with a witness; returns the callables (to clear their caches afterwards)"""
+    import importlib
+    fns = []
+    for rec in serialized or []:
+        mod, qn = rec["fn"].split(":")
+        fn = importlib.import_module(mod)
+        for part in qn.split("."):
+            fn = getattr(fn, part)
+        fns.append(fn)
+        try:
+            fn(*[_deser(a) for a in rec["args"]], **{k: _deser(v) for k, v in rec.get("kwargs", {}).items()})
+        except Exception:  # noqa: BLE001
+            pass
+    return fns
 
 
 def _describe(x):
